@@ -123,6 +123,18 @@ def run_pyfunc(py, ref, payload, tier, seed, timeout=600):
     return {'error': f'exit {p.returncode}: {p.stderr.strip()[-1500:]}'}
 
 
+def trace_functions(target, args, tier, seed):
+    try:
+        p = subprocess.run(['timeout', '-k', '5', '120', VENV_PY, '-m', 'vf.trace_fns', target, json.dumps(args)],
+                           cwd=HERE, env=env_for(tier, seed), capture_output=True, text=True)
+        for line in p.stdout.splitlines():
+            if line.startswith('VFFNS '):
+                return json.loads(line[6:])
+    except Exception:
+        pass
+    return []
+
+
 def load_findings():
     if not os.path.exists(KF_FILE):
         return []
@@ -324,6 +336,15 @@ def main(argv=None):
                 lines.append(f'INCONCLUSIVE property={prop} obligation={name}: {r["verdict"]} {r["message"][:300]}')
         records.append(rec)
 
+    # measured list of functions entered: every reachability witness is re-run concretely under a profiler
+    measured = set()
+    wit = [(ob['fn'], rec['witness']['args']) for ob, rec in zip(jobs, records)
+           if rec.get('witness') and rec['witness'].get('args') is not None and ob.get('engine', 'crosshair') == 'crosshair']
+    with cf.ThreadPoolExecutor(max_workers=a.jobs) as ex:
+        for names in ex.map(lambda t: trace_functions(t[0], t[1], tier, seed), wit):
+            measured.update(names)
+    spec = dict(spec)
+    spec['functions_measured'] = sorted(measured)
     for ln in lines:
         print(ln)
     write_evidence(prop, tier, seed, spec, records, st_results, t_start, violations, harness_error)
@@ -491,6 +512,11 @@ def write_evidence(prop, tier, seed, spec, records, st_results, t_start, violati
     try:
         from vf.fnhash import hash_functions
         ev['coverage']['functions_encoded'] = hash_functions(fn_enc)
+        meas = spec.get('functions_measured', [])
+        ev['coverage']['functions_entered_by_witnesses'] = hash_functions(meas)
+        ev['coverage']['functions_entered_note'] = ('measured: every reachability witness found by the solver was re-run '
+                                                    'concretely under sys.setprofile; functions_encoded is the list of '
+                                                    'entry points named by the obligations')
     except Exception as e:  # never let bookkeeping mask a verdict
         ev['coverage']['functions_encoded_error'] = str(e)
     with open(os.path.join(EVID, f'{prop}.json'), 'w') as f:
